@@ -115,7 +115,8 @@ type c17Val struct {
 
 const c17Input = "0; 12 ;abc;2.50;-3.9;;1e3;255.99\n"
 
-var c17Vars = []string{"FS", ";", "VZ", "0", "VS", " 12 ", "VF", "2.50", "VE", "1e3", "VA", "abc", "VZZ", "0.0", "VP", "+7", "VD", ".5", "VN", "-129"}
+// OFMT differs from CONVFMT: a number handed to a string parameter is converted with CONVFMT
+var c17Vars = []string{"OFMT", "%.2g", "FS", ";", "VZ", "0", "VS", " 12 ", "VF", "2.50", "VE", "1e3", "VA", "abc", "VZZ", "0.0", "VP", "+7", "VD", ".5", "VN", "-129"}
 
 func c17Vals() []c17Val {
 	var vs []c17Val
